@@ -593,7 +593,7 @@ class Failure:
         self.clause, self.subject, self.kind, self.observed, self.expected = clause, subject, kind, observed, expected
 
 
-OPS_PER_CASE = 10
+OPS_PER_CASE = 14
 _LAST = {}  # objects produced by the most recent evaluate(): handed to the independence oracle by judge()
 
 
@@ -678,6 +678,19 @@ def evaluate(unit, recipe, via="class", encode_side=True):
         return Failure("decode", subject, "repack", repr(e), ref)
     if again != ref:
         return Failure("decode", subject, "repack", again, ref)
+    # packing is an observation: the decoded PDU (whose octet strings are slices of a mutable receive buffer) and the
+    # constructed one still expose the same values afterwards and pack to the same octets a second time
+    for who, o in ((subject, u), (kind + ".pack", obj if encode_side else None)):
+        if o is None:
+            continue
+        try:
+            obs2, again2 = unit.observe(o), bytes(o.pack())
+        except Exception as e:
+            return Failure("decode" if o is u else "encode", who, "second-pack", repr(e), ref)
+        if obs2 != exp:
+            return Failure("decode" if o is u else "encode", who, "fields-changed-by-pack", obs2, exp)
+        if again2 != ref:
+            return Failure("decode" if o is u else "encode", who, "second-pack", again2, ref)
     return None
 
 
